@@ -397,7 +397,6 @@ where for<'x> &'x R: RingOps<R> {
             (Some((fs, bs)), Some((ft, bt))) => (ft.m, ft.n) == (mm - r, mm) && (bs.m, bs.n) == (nn, nn - r)
                 && (fs.m, fs.n) == (nn - r, nn) && (bt.m, bt.n) == (mm, mm - r)
                 && ft.mul(&md).mul(bs) == o.0 && fs.mul(bs) == Dn::id(nn - r) && ft.mul(bt) == Dn::id(mm - r),
-            (None, None) => !wt,
             _ => false,
         }
     };
@@ -405,7 +404,8 @@ where for<'x> &'x R: RingOps<R> {
         let f = |p: &Option<(Dn<R>, Dn<R>)>| p.as_ref().map(|(a, b)| format!("{} / {}", a.txt(), b.txt())).unwrap_or("-".into());
         format!("{} | {} | {}", o.0.txt(), f(&o.1), f(&o.2))
     })).collect();
-    let reply = match &res[0] { Some(o) => format!("ok {} {}", o.0.txt(), tr_ok(o) as u8), None => "panic".into() };
+    // flag: when the maps were requested they are present and satisfy the identities (nothing is demanded otherwise)
+    let reply = match &res[0] { Some(o) => format!("ok {} {}", o.0.txt(), (!wt || tr_ok(o)) as u8), None => "panic".into() };
     s.count(&format!("schur.{}.{}.wt{}", R::TAG, ul(upper), wt as u8));
     s.count(if r == 0 { "schur.r=0" } else if r == mm.min(nn) { "schur.r=min" } else { "schur.r=mid" });
     if stored_zeros(m) > 0 { s.count("with_stored_zeros"); }
